@@ -31,6 +31,7 @@ package main
 //	png  a = [index, mutkind, nmut, mseed, rot, binarizer]        -> Reader.Decode on a sample image of the repository
 
 import (
+	"bufio"
 	"encoding/json"
 	"fmt"
 	"image"
@@ -76,6 +77,7 @@ type ev struct {
 	R     []int  `json:"r"`
 	Msg   string `json:"msg"`
 	Ms    int    `json:"ms"`
+	Skip  int    `json:"skip"`
 }
 
 func kind(err error) string {
@@ -98,7 +100,7 @@ func kind(err error) string {
 }
 
 // outcome codes of block events: 0 result, 1 Format error, 2 other reader error kind, 3 untyped error, 4 panic,
-// 5 neither result nor error, 6 both
+// 5 neither result nor error, 6 both, 7 hang, 8 (registry lookup only) nothing registered: (nil, nil)
 func outcome(res bool, err error, p string) int {
 	switch {
 	case p != "":
@@ -529,9 +531,9 @@ func mutate(img *image.Gray, mutkind, nmut int, seed int64) *image.Gray {
 		for i := range img.Pix {
 			d := rng.Intn(1 + 16*nmut)
 			if img.Pix[i] < 128 {
-				img.Pix[i] = uint8(min(255, int(img.Pix[i])+d))
+				img.Pix[i] = uint8(imin(255, int(img.Pix[i])+d))
 			} else {
-				img.Pix[i] = uint8(max(0, int(img.Pix[i])-d))
+				img.Pix[i] = uint8(imax(0, int(img.Pix[i])-d))
 			}
 		}
 	case 8: // horizontal shear by shifting rows (1-D rows no longer aligned; 2-D modules displaced)
@@ -842,9 +844,18 @@ func loadGray(path string, maxSide int) (*image.Gray, error) {
 }
 
 // ---------------------------------------------------------------- calls
-type callOut struct {
-	res bool
-	err error
+func imin(a, b int) int {
+	if a < b {
+		return a
+	}
+	return b
+}
+
+func imax(a, b int) int {
+	if a > b {
+		return a
+	}
+	return b
 }
 
 func arg(a []int, i, def int) int {
@@ -930,12 +941,6 @@ func eciCall(form, v int) (bool, error) {
 		put(3, 5)
 		_, err := azdec.NewDecoder().HighLevelDecode(b)
 		return err == nil, err
-	case 6: // the registry itself: a value either has an entry, or has none (nil, nil), or is out of range (error)
-		e, err := common.GetCharacterSetECIByValue(v)
-		if e == nil && err == nil {
-			return true, fmt.Errorf("none") // reported as outcome 6 ("both") = "nothing registered" for this form only
-		}
-		return e != nil, err
 	}
 	panic("harness: unknown ECI form")
 }
@@ -1015,7 +1020,7 @@ func call(e *ev) func() (bool, error) {
 				}
 			}
 			if err != nil || m == nil {
-				return false, fmt.Errorf("harness: writer refused %q: %v", txt, err)
+				return false, fmt.Errorf("skip: writer refused %q: %v", txt, err)
 			}
 			quiet := 0
 			if f <= 1 {
@@ -1109,13 +1114,57 @@ func call(e *ev) func() (bool, error) {
 	return nil
 }
 
+// execLoop is hlib.ExecLoop with a flush after every observation: when the process dies on an input (fatal runtime
+// error that recover() cannot catch), the orchestrator sees which input it was.
+func execLoop(f func(raw []byte) (interface{}, error)) {
+	args := os.Args[1:]
+	fail := func(err error) {
+		fmt.Fprintln(os.Stderr, "vdrive:", err)
+		os.Exit(3)
+	}
+	if len(args) < 3 || args[0] != "exec" {
+		fail(fmt.Errorf("usage: exec <in.ndjson> <out.ndjson>"))
+	}
+	in, err := os.Open(args[1])
+	if err != nil {
+		fail(err)
+	}
+	defer in.Close()
+	out, err := os.Create(args[2])
+	if err != nil {
+		fail(err)
+	}
+	defer out.Close()
+	enc := json.NewEncoder(out)
+	sc := bufio.NewScanner(in)
+	sc.Buffer(make([]byte, 1<<20), 1<<28)
+	n := 0
+	for sc.Scan() {
+		n++
+		line := sc.Bytes()
+		if len(line) == 0 {
+			continue
+		}
+		o, err := f(line)
+		if err != nil {
+			fail(fmt.Errorf("input %d: %v", n, err))
+		}
+		if err := enc.Encode(o); err != nil {
+			fail(err)
+		}
+	}
+	if err := sc.Err(); err != nil {
+		fail(err)
+	}
+}
+
 func main() {
 	if s := os.Getenv("VERIF_C06_WATCHDOG_MS"); s != "" {
 		if v, err := strconv.Atoi(s); err == nil && v > 0 {
 			watchdog = time.Duration(v) * time.Millisecond
 		}
 	}
-	hlib.Main(func(raw []byte) (interface{}, error) {
+	execLoop(func(raw []byte) (interface{}, error) {
 		var e ev
 		if err := json.Unmarshal(raw, &e); err != nil {
 			return nil, err
@@ -1127,13 +1176,24 @@ func main() {
 			form, lo, n := arg(e.A, 0, 1), arg(e.A, 1, 0), arg(e.A, 2, 1)
 			for v := lo; v < lo+n; v++ {
 				vv := v
-				res, err, p, hang := guarded(func() (bool, error) { return eciCall(form, vv) })
+				none := false
+				res, err, p, hang := guarded(func() (bool, error) {
+					if form == 6 { // the registry itself: an entry, or nothing registered (nil, nil), or out of range (error)
+						c, err := common.GetCharacterSetECIByValue(vv)
+						none = c == nil && err == nil
+						return c != nil, err
+					}
+					return eciCall(form, vv)
+				})
 				if hang {
 					e.R = append(e.R, 7)
 					e.Hang = 1
 					continue
 				}
 				o := outcome(res, err, p)
+				if none && p == "" {
+					o = 8
+				}
 				if o >= 3 && e.Msg == "" {
 					e.Msg = fmt.Sprintf("eci %d: %s%v", v, p, err)
 				}
@@ -1163,6 +1223,10 @@ func main() {
 		if err != nil {
 			if m := err.Error(); len(m) >= 8 && m[:8] == "harness:" {
 				return nil, err // input construction failed: infrastructure, never an observation
+			}
+			if m := err.Error(); len(m) >= 5 && m[:5] == "skip:" {
+				e.Skip, e.Msg = 1, m // no call of the function under observation took place
+				return e, nil
 			}
 			e.Err = kind(err)
 			e.Msg = err.Error()
